@@ -34,6 +34,7 @@ def inputs(ctx, tool):
 def run(ctx):
     rng = ctx.rng
     perturbed(ctx)
+    paused_after_post(ctx)
     policies = [["eager"], ["block", "2"], ["block", "64"], ["readall"]]
     for tool, base in (("cache", ["cache"]), ("foldfilter", ["foldfilter", "-w", "30"]), ("b64filter", ["b64filter"])):
         for label, lines in inputs(ctx, tool):
@@ -113,6 +114,28 @@ def run(ctx):
                     "stderr": err.decode(errors="replace")[-300:]},
                     summary=f"{' '.join(base)} with an identity child, {total} bytes handed to the child, input idle before it ends: {what}")
                 break
+
+
+def paused_after_post(ctx):
+    """the feeder is descheduled right AFTER a sem_post (it has made an entry available and not yet executed its next statement), for the
+    posts around the queue's 1023-entry page boundaries; the collector is otherwise caught up, so it takes that very entry at once"""
+    import subprocess
+    shim = os.path.join(ctx.bdir, "harness", "faults_preload.so")
+    for tool, argv in (("cache", ["cache"]), ("b64filter", ["b64filter"]), ("foldfilter", ["foldfilter", "-w", "30"])):
+        data, _ = wrappers.paced_corpus(tool)
+        # cache posts once per input line (hits included); b64filter once per document; foldfilter once per line
+        for lo in ((1021, 2044, 4090, 5113) if tool == "cache" else (1021, 2044)):
+            env = pvlib.san_env({"LD_PRELOAD": shim, "PV_DELAY_ONLY": tool, "PV_DELAY_AFTER_POST_US": f"150000:{lo}-{lo + 6}"})
+            env["ASAN_OPTIONS"] += ":verify_asan_link_order=0"
+            st, out, err = pvlib.run_tool([ctx.bin(argv[0])] + argv[1:] + ["cat"], data, env=env, timeout=120)
+            ctx.count("wrapper-paused-after-post", 1, [(tool, lo)])
+            if st != 0 or out != data:
+                what = "did not terminate (deadlock)" if st == "HANG" else f"status {st}, {out.count(10)} of {data.count(10)} output lines"
+                pvlib.report_violation(ctx, f"wrapper-post-pause:{tool}:{lo}", {"argv": argv + ["cat"], "stdin_hex": hx(data)[:400000], "status": st,
+                                       "env": {"LD_PRELOAD": "harness/faults_preload.so", "PV_DELAY_ONLY": tool, "PV_DELAY_AFTER_POST_US": f"150000:{lo}-{lo + 6}"},
+                                       "stderr": err.decode(errors="replace")[-300:]},
+                                       summary=f"{' '.join(argv)} cat with the feeding thread paused for 150 ms after each of its semaphore posts number {lo}..{lo + 6}: {what}")
+                return
 
 
 def perturbed(ctx):
